@@ -547,6 +547,60 @@ def u13(ctx, rid):
         ctx.ok(rid, key, closed[0].where(), 'every Ok return follows the completed closed-blob pass')
 
 
+def u14(ctx, rid):
+    """the cross-blob merge (sort by timestamp, cut after the first marker) runs whenever the listed entries come from more than
+    one blob: the counter that enables it is advanced at every place that adds a blob's entries to the result - the active blob
+    included.  When a source is not counted, a key that lives in the active blob and in exactly one closed blob is listed
+    unmerged (wrong order, a marker twice, a marker as a live entry) and the answer changes when the active blob is closed."""
+    prog = ctx.prog
+    n = 0
+    for f in prog.fns.values():
+        if not f.is_coroutine or f.file != 'src/storage/core.rs':
+            continue
+        sorts = [c for c in f.calls if c.name.startswith('sort') and 'Entry' in c.full and c.bb in f.reachable()]
+        if not sorts:
+            continue
+        # the local that is compared with a constant and controls the sort
+        counter = None
+        for i in core.deciding_switches(f, sorts[0].bb):
+            for o in core.origins(f, f.blocks[i]['t']['o']):
+                if o.kind == 'binop' and o.data['op'] in ('Gt', 'Ge', 'Lt', 'Le', 'Ne', 'Eq'):
+                    for side in ('a', 'b'):
+                        l = op_local(o.data[side])
+                        hops = 0
+                        while l is not None and hops < 4:
+                            if f.debug_name(l) and f.locals[l]['s'] in ('i32', 'u32', 'usize', 'u64', 'i64'):
+                                counter = l
+                                break
+                            ds = [x for x in f.defs().get(l, []) if x[2] == 'assign' and x[3]['k'] == 'use']
+                            l = op_local(ds[0][3]['o']) if len(ds) == 1 else None
+                            hops += 1
+        if counter is None:
+            continue
+        result = core.access_root(f, op_local(sorts[0].args[0])) if op_local(sorts[0].args[0]) is not None else None
+        incs = [bb for (bb, si, kind, r) in f.defs().get(counter, []) if kind == 'assign' and bb in f.reachable() and not (r['k'] == 'use' and op_const(r['o']) is not None)]
+        adds = []
+        for c in f.calls:
+            if c.bb in f.reachable() and c.name in ('extend', 'append', 'push', 'extend_from_slice') and c.args and op_local(c.args[0]) is not None and core.access_root(f, op_local(c.args[0])) == result:
+                adds.append(c.bb)
+        for (bb, si, kind, r) in f.defs().get(result, []) if result is not None else []:
+            if kind in ('assign', 'call') and bb in f.reachable():
+                # a whole-vector assignment from a call result (not the initial `Vec::new()`)
+                if kind == 'call' and r.name not in ('new', 'with_capacity', 'default'):
+                    adds.append(bb)
+                elif kind == 'assign' and r['k'] == 'use' and any(o.kind == 'call' and o.data.name not in ('new', 'with_capacity', 'default') for o in core.origins(f, r['o'])):
+                    adds.append(bb)
+        for a in sorted(set(adds)):
+            n += 1
+            key = 'every-source-counted|%s|%d' % (prog.fns[f.id].root, sorted(set(adds)).index(a))
+            if any(f.dominates(a, i) or f.dominates(i, a) for i in incs):
+                ctx.ok(rid, key, f.where(a), 'the blob that contributes entries here is counted (`%s`)' % f.debug_name(counter))
+            else:
+                ctx.bad(rid, key, f.where(a), 'entries of a blob are added to the result here without advancing `%s`, the counter that enables the cross-blob merge: with that blob plus exactly one other the list is returned unmerged' % f.debug_name(counter))
+    if n < 2:
+        raise core.AnchorLost('entry sources feeding a guarded cross-blob merge: %d' % n)
+
+
 RULES = [
     Rule('C02.U1', 'the append in the write path is dominated by the duplicate policy branch; a found duplicate is acknowledged without storing', u1, 1),
     Rule('C02.U2', 'closed blobs are only ever marked with only_if_presented = true', u2, 2),
@@ -560,5 +614,6 @@ RULES = [
     Rule('C02.U11', 'the cross-blob merge keeps the first-seen result on ties and ranks NotFound below every record (C01.R3 instances)', u11, 2),
     Rule('C02.U12', 'a plain write passes None metadata to the duplicate check', u12, 1),
     Rule('C02.U13', 'delete_core visits the closed blobs on every path that returns Ok', u13, 1),
+    Rule('C02.U14', 'every blob that contributes entries advances the counter that enables the cross-blob merge', u14, 2),
     Rule('C02.U6', 'the point lookup consults every candidate closed blob before it returns Ok', u6, 1),
 ]
